@@ -650,6 +650,12 @@ def _nonzero(d):
     e = eng() if ENG is not None else None
     if e is None:
         return
+    try:
+        sd = z3.simplify(d) if z3.is_expr(d) else d
+        if (z3.is_rational_value(sd) or z3.is_int_value(sd) or z3.is_algebraic_value(sd)) and not z3.is_false(z3.simplify(sd != 0)):
+            return          # a non-zero numeral: nothing to fork on or to assume
+    except z3.Z3Exception:
+        pass
     if e.div_zero == 'fork':
         if not e.branch(d != 0):
             raise ZeroDivisionError('float division by zero')
